@@ -5,6 +5,7 @@ import (
 	"bytes"
 	stdjson "encoding/json"
 	"fmt"
+	"math"
 	"reflect"
 	"testing"
 
@@ -27,6 +28,23 @@ type Case struct {
 	P     int           `json:"p"`     // len(b)
 	CMode string        `json:"cmode"` // spare capacity: 0 | 1 | n-1 | n | n+1 | 2n | 4096 | fixed:<k>
 	CAbs  int           `json:"cabs,omitempty"`
+	// Tail: what b's content ends with (the rest is filler). The encoder has places that look back at
+	// the bytes it has just written (exponent clean-up, re-quoting, comma handling); with a hostile tail a
+	// look-back that reaches below len(b) finds something it recognises.
+	Tail string `json:"tail,omitempty"`
+}
+
+var tails = []string{"", "", "e-0", "e+0", "1e-0", "\\", "\"", "\\\"", "0", "-", "-0", "0.", ",", ":", "[", "{", "{\"a\":", "nul", "tru", "fals", "\\u00", "\\u", "\xe2\x80", "\xc3", " ", "\n", "]", "}", "\"\"", "<", "&"}
+
+func prefixOf(c Case) []byte {
+	prefix := make([]byte, c.P)
+	for i := range prefix {
+		prefix[i] = byte('a' + i%23)
+	}
+	if len(c.Tail) <= c.P {
+		copy(prefix[c.P-len(c.Tail):], c.Tail)
+	}
+	return prefix
 }
 
 const canary = 0xA5
@@ -94,10 +112,7 @@ func checkCaseInfo(c Case) (f *evid.Failure, n int, failed bool) {
 	for i := range arena {
 		arena[i] = canary
 	}
-	prefix := make([]byte, c.P)
-	for i := range prefix {
-		prefix[i] = byte('a' + i%23)
-	}
+	prefix := prefixOf(c)
 	g := guardLen
 	copy(arena[g:], prefix)
 	dst := arena[g : g+c.P : g+c.P+sp]
@@ -139,6 +154,7 @@ var plens = []int{0, 0, 1, 7, 8, 9, 100, 4095, 4096}
 
 func genGeom(rt *rapid.T, c *Case) {
 	c.P = rapid.SampledFrom(plens).Draw(rt, "p")
+	c.Tail = rapid.SampledFrom(tails).Draw(rt, "tail")
 	c.CMode = rapid.SampledFrom(cmodes).Draw(rt, "cmode")
 	if c.CMode == "abs" {
 		c.CAbs = rapid.IntRange(0, 200).Draw(rt, "cabs")
@@ -234,6 +250,51 @@ func TestAppendEscapeUnescape(t *testing.T) {
 			evid.Violation(rt, "AppendEscapeUnescape", c, f)
 		}
 	})
+}
+
+// TestScalarsAfterTails: short scalars (the ones whose whole encoding is shorter than the encoder's
+// look-back windows) appended after every hostile tail in every geometry, exhaustively.
+func TestScalarsAfterTails(t *testing.T) {
+	if evid.Shard() != 0 {
+		return
+	}
+	type tv struct {
+		k string
+		r jgen.Recipe
+	}
+	var vals []tv
+	for _, f := range []float64{0, 1, 2, 7, 9, 10, -1, 0.5, 1e-7, 2.5e-7, 1e-9, 1e21, 1e-10, 123456789, 1e20} {
+		vals = append(vals, tv{"float64", jgen.Recipe{F: math.Float64bits(f)}}, tv{"float32", jgen.Recipe{F: math.Float64bits(f)}})
+	}
+	for _, i := range []int64{0, 1, 9, 10, -1, -10, 100} {
+		vals = append(vals, tv{"int", jgen.Recipe{I: i}}, tv{"int8", jgen.Recipe{I: i}})
+	}
+	for _, u := range []uint64{0, 9, 10, 255} {
+		vals = append(vals, tv{"uint", jgen.Recipe{U: u}})
+	}
+	vals = append(vals, tv{"bool", jgen.Recipe{}}, tv{"bool", jgen.Recipe{I: 1}}, tv{"string", jgen.Recipe{S: []byte{}}}, tv{"string", jgen.Recipe{S: []byte("a")}},
+		tv{"string", jgen.Recipe{S: []byte("<")}}, tv{"string", jgen.Recipe{S: []byte("\\")}}, tv{"bytes", jgen.Recipe{S: []byte{1}}}, tv{"number", jgen.Recipe{S: []byte("0")}},
+		tv{"number", jgen.Recipe{S: []byte("1e-07")}}, tv{"raw", jgen.Recipe{S: []byte("0")}}, tv{"raw", jgen.Recipe{S: []byte(" 7 ")}}, tv{"duration", jgen.Recipe{I: 0}}, tv{"duration", jgen.Recipe{I: 1}})
+	n := 0
+	for _, v := range vals {
+		for _, tail := range tails[1:] {
+			for _, p := range []int{len(tail), len(tail) + 5} {
+				for _, cm := range cmodes[:7] {
+					for _, fl := range []uint32{0, 1} {
+						c := Case{Fn: "Append", Type: jgen.TypeDesc{K: v.k}, Value: v.r, Flags: fl, P: p, CMode: cm, Tail: tail}
+						f, sz, failed := checkCaseInfo(c)
+						account(c, sz, failed)
+						n++
+						if f != nil {
+							evid.Violation(t, "ScalarsAfterTails", c, f)
+						}
+					}
+				}
+			}
+		}
+	}
+	evid.Eval(n)
+	evid.Enumerated("ScalarsAfterTails", 1, 1)
 }
 
 // TestBytesLengths: []byte of every length 0..100 x every geometry (base64
